@@ -191,6 +191,22 @@ func ExactArith(p *core.Prog, r *core.Report) {
 			r.OK(rule2, name+":tolerance", p.Pos(f.Pos()), "no tolerance predicate decides")
 		}
 	}
+	// the `type` keyword decides integer-ness of a float through the same tolerance predicate
+	if f := p.Func("(*typeValidator).Validate"); f != nil {
+		tol := ""
+		core.EachInstr(f, func(i ssa.Instruction) {
+			if c, ok := i.(ssa.CallInstruction); ok {
+				if g := core.StaticCallee(c); g != nil && !p.InSubject(g) && strings.Contains(core.QualName(g), "IsFloat64AJSONInteger") {
+					tol = p.Pos(c.Pos())
+				}
+			}
+		})
+		if tol != "" {
+			r.Bad(rule2, "typeValidator:tolerance", tol, "`type: integer` decides whether a float64 is an integer through swag.IsFloat64AJSONInteger (relative tolerance 1e-9, nothing beyond ±(2^53−1)): {\"type\":\"integer\"} accepts 250000001.5, 1000000000.5 and 1.0000000001 and rejects -1000000000.5; {\"not\":{\"type\":\"integer\"}} and oneOf[integer, number] come out wrong accordingly")
+		} else {
+			r.OK(rule2, "typeValidator:tolerance", p.Pos(f.Pos()), "no tolerance predicate decides integer-ness")
+		}
+	}
 	r.Count("numeric_helpers", nn)
 	r.Floor("numeric_helpers", 9)
 }
